@@ -49,10 +49,13 @@ def priority_rule(run, stats, bad):
     that arrives in between is "waiting" at the tap although no scan could have seen it.  SP resumes in a later kernel
     step than the event that enabled the decision (the previous departure, or the arrival that ended the idle
     period), so everything that had arrived up to and including that step was certainly visible to the scan.
-    Arrivals in later steps of the instant, before the tap, are counted, not judged (they are judged at the next
-    start of service)."""
+    So had every arrival whose delivering event was scheduled before that step (C01: within one instant events
+    take effect in trigger order, and the scheduler's resumption is triggered in that step at the earliest).
+    Arrivals triggered later inside the instant, before the tap, are counted, not judged (they are judged at the
+    next start of service)."""
     prio = run.tbl
     arr = run.arr
+    sched_of = run.net.sched_of          # kernel step in which the event that delivered an arrival was scheduled
     dec_iter = sorted(run.dec, key=lambda d: d[0])
     dep_seq = sorted((d[0], d[1]) for d in run.dep)
     ai = 0
@@ -62,7 +65,7 @@ def priority_rule(run, stats, bad):
     for d in dec_iter:
         while ai < len(arr) and arr[ai][0] < d[0]:
             a = arr[ai]
-            waiting[a[3]] = (a[4], prio[a[4]], a[2], a[1])
+            waiting[a[3]] = (a[4], prio[a[4]], a[2], a[1], sched_of.get(a[3], a[1]))
             ai += 1
         while kdep < len(dep_seq) and dep_seq[kdep][0] < d[0]:
             kdep += 1
@@ -72,12 +75,15 @@ def priority_rule(run, stats, bad):
             bad("decided-packet-not-waiting", "a packet was handed to transmission that was not waiting", u)
             return
         oldest = min(x[3] for x in waiting.values())          # (incl. the packet served)
-        f, p, _, _ = waiting.pop(u)
+        f, p, _, _, _ = waiting.pop(u)
         levels = {x[1] for x in waiting.values()} | {p}
         if len(levels) >= 2:
             stats["decisions_multi_level"] += 1
         higher = [x for x in waiting.values() if x[1] > p]
-        certain = [x for x in higher if x[3] <= max(prev_dep, oldest)]
+        # (an arrival whose delivering event was already in the agenda when the decision was enabled precedes the
+        # scheduler's own resumption, which is triggered later: events of one instant take effect in trigger order)
+        E = max(prev_dep, oldest)
+        certain = [x for x in higher if x[3] <= E or x[4] < E]
         if higher and not certain:
             stats["higher_arrived_between_pick_and_start"] += 1
         if certain:
